@@ -157,6 +157,15 @@ def _es_calls(obj):
         for wt in ("retarded", "advanced", "symmetric"):
             calls.append(("ECA(%s,%s)" % (sym, wt), lambda sym=sym, wt=wt: obj.event_series_analysis(
                 method="ECA", symmetrization=sym, window_type=wt)))
+    # significance levels: random (shuffling) or analytic - observed through their shape only, but they are
+    # queries like the others (what they do to the object is seen by the analyses that follow)
+    for wt in ("retarded", "advanced", "symmetric"):
+        calls.append(("significance(ECA,analytic,%s)" % wt, lambda wt=wt: obj.event_analysis_significance(
+            method="ECA", surrogate="analytic", window_type=wt)))
+    calls.append(("significance(ES,shuffle)~shape", lambda: np.array(np.shape(obj.event_analysis_significance(
+        method="ES", surrogate="shuffle", n_surr=3)))))
+    calls.append(("significance(ECA,shuffle)~shape", lambda: np.array(np.shape(obj.event_analysis_significance(
+        method="ECA", surrogate="shuffle", n_surr=3, window_type="symmetric")))))
     return calls
 
 
